@@ -234,12 +234,27 @@ def gen_scenario(rng, ranks=None, kernels=None, host=None, wraps=True, be_ratio=
     return s
 
 
-def write(s, directory, as_object=False):
-    """writes the files; returns the -i argument"""
+def colliding_path(first, directory, stem):
+    """a path <directory>/<stem>_c<n>.json with the same 4-digit job id (crc32(path) % 10000) as `first`"""
+    import zlib
+    want = zlib.crc32(first.encode()) % 10000
+    i = 0
+    while True:
+        p = os.path.join(directory, f"{stem}_c{i}.json")
+        if p != first and zlib.crc32(p.encode()) % 10000 == want:
+            return p
+        i += 1
+
+
+def write(s, directory, as_object=False, collide=False):
+    """writes the files; returns the -i argument. collide: the second file gets a name whose job id equals the
+    first file's (two different inputs of one run sharing a job id: 1e-4 per pair of paths in the field)"""
     os.makedirs(directory, exist_ok=True)
     names = []
-    for fn, evs in s.files.items():
+    for k, (fn, evs) in enumerate(s.files.items()):
         p = os.path.join(directory, fn)
+        if collide and k == 1:
+            p = colliding_path(names[0], directory, fn[:-5])
         with open(p, "w") as fh:
             json.dump({"traceEvents": evs} if as_object else evs, fh)
         names.append(p)
